@@ -821,6 +821,8 @@ impl<S: BitmapSlice + Send + Sync> PassthroughFs<S> {
                 // we don't want misbehaving clients to cause integer overflow.
                 let new = curr.saturating_sub(count);
 
+                #[cfg(fuse_backend_rs_verif)]
+                crate::verif::yield_point(7);
                 // Synchronizes with the acquire load in `do_lookup`.
                 if data
                     .refcount
